@@ -1,7 +1,605 @@
 (* Refl/IndexProofs.v -- lemmas about the per-node index algebra and the flat tree of Refl/Index.v. *)
-From Coq Require Import List Arith Bool Lia.
+From Coq Require Import List Arith Bool Lia Permutation.
 Import ListNotations.
 From Muscle Require Import Refl.Index.
 
+(* ------------------------------------------------------------------ equality tests *)
+
+Lemma name_eqb_eq : forall a b, name_eqb a b = true <-> a = b.
+Proof.
+  intros [x|x|x] [y|y|y]; simpl; split; intro H; try discriminate; try (inversion H; subst; apply Nat.eqb_refl);
+    apply Nat.eqb_eq in H; subst; reflexivity.
+Qed.
+
+Lemma name_eqb_refl : forall a, name_eqb a a = true.
+Proof. intro a. apply name_eqb_eq. reflexivity. Qed.
+
+Lemma name_eqb_neq : forall a b, name_eqb a b = false <-> a <> b.
+Proof.
+  intros a b. split.
+  - intros H E. apply name_eqb_eq in E. congruence.
+  - intro H. destruct (name_eqb a b) eqn:E; [apply name_eqb_eq in E; contradiction | reflexivity].
+Qed.
+
+Lemma name_eq_dec : forall a b : name, {a = b} + {a <> b}.
+Proof.
+  intros a b. destruct (name_eqb a b) eqn:E.
+  - left. apply name_eqb_eq. exact E.
+  - right. apply name_eqb_neq. exact E.
+Qed.
+
+Lemma path_eqb_eq : forall p q, path_eqb p q = true <-> p = q.
+Proof.
+  induction p as [|a p IH]; intros [|b q]; simpl; split; intro H; try discriminate; try reflexivity.
+  - apply andb_true_iff in H. destruct H as [H1 H2]. apply name_eqb_eq in H1. apply IH in H2. subst. reflexivity.
+  - inversion H; subst. rewrite name_eqb_refl. simpl. apply IH. reflexivity.
+Qed.
+
+Lemma path_eqb_refl : forall p, path_eqb p p = true.
+Proof. intro p. apply path_eqb_eq. reflexivity. Qed.
+
+Lemma path_eqb_neq : forall p q, path_eqb p q = false <-> p <> q.
+Proof.
+  intros p q. split.
+  - intros H E. apply path_eqb_eq in E. congruence.
+  - intro H. destruct (path_eqb p q) eqn:E; [apply path_eqb_eq in E; contradiction | reflexivity].
+Qed.
+
+Lemma path_eqb_sym : forall p q, path_eqb p q = path_eqb q p.
+Proof.
+  intros p q. destruct (path_eqb p q) eqn:E.
+  - apply path_eqb_eq in E. subst. symmetry. apply path_eqb_refl.
+  - symmetry. apply path_eqb_neq. apply path_eqb_neq in E. congruence.
+Qed.
+
+Lemma mem_In : forall k l, mem k l = true <-> In k l.
+Proof.
+  intros k l. induction l as [|x t IH]; simpl.
+  - split; [discriminate | contradiction].
+  - rewrite orb_true_iff, IH, name_eqb_eq. tauto.
+Qed.
+
+Lemma mem_false : forall k l, mem k l = false <-> ~ In k l.
+Proof.
+  intros k l. rewrite <- mem_In. destruct (mem k l); split; congruence.
+Qed.
+
+(* ------------------------------------------------------------------ insert_at / remove_at *)
+
+Lemma insert_at_perm : forall l i k, Permutation (k :: l) (insert_at l i k).
+Proof.
+  intros l i k. unfold insert_at.
+  rewrite <- (firstn_skipn i l) at 1. apply Permutation_middle.
+Qed.
+
+Lemma insert_at_In : forall l i k x, In x (insert_at l i k) <-> x = k \/ In x l.
+Proof.
+  intros l i k x. split; intro H.
+  - apply (Permutation_in x (Permutation_sym (insert_at_perm l i k))) in H. simpl in H. intuition.
+  - apply (Permutation_in x (insert_at_perm l i k)). simpl. intuition.
+Qed.
+
+Lemma insert_at_NoDup : forall l i k, NoDup l -> ~ In k l -> NoDup (insert_at l i k).
+Proof.
+  intros l i k Hn Hk. apply (Permutation_NoDup (insert_at_perm l i k)). constructor; assumption.
+Qed.
+
+Lemma remove_at_perm : forall l i k, nth_error l i = Some k -> Permutation l (k :: remove_at l i).
+Proof.
+  induction l as [|x t IH]; intros [|i] k H; simpl in H; try discriminate.
+  - inversion H; subst. unfold remove_at. simpl. apply Permutation_refl.
+  - unfold remove_at. simpl. specialize (IH i k H). unfold remove_at in IH.
+    eapply Permutation_trans; [apply perm_skip; exact IH | apply perm_swap].
+Qed.
+
+Lemma remove_at_In : forall l i x, In x (remove_at l i) -> In x l.
+Proof.
+  intros l i x H. unfold remove_at in H. apply in_app_or in H. destruct H as [H|H].
+  - rewrite <- (firstn_skipn i l). apply in_or_app. left. exact H.
+  - rewrite <- (firstn_skipn (S i) l). apply in_or_app. right. exact H.
+Qed.
+
+Lemma remove_at_NoDup : forall l i, NoDup l -> NoDup (remove_at l i).
+Proof.
+  intros l i H. destruct (nth_error l i) as [k|] eqn:E.
+  - pose proof (Permutation_NoDup (remove_at_perm l i k E) H) as H2. inversion H2; assumption.
+  - unfold remove_at. apply nth_error_None in E.
+    rewrite firstn_all2 by lia. rewrite skipn_all2 by lia. rewrite app_nil_r. exact H.
+Qed.
+
+Lemma remove_at_not_In : forall l i k, NoDup l -> nth_error l i = Some k -> ~ In k (remove_at l i).
+Proof.
+  intros l i k H E. pose proof (Permutation_NoDup (remove_at_perm l i k E) H) as H2. inversion H2; assumption.
+Qed.
+
+Lemma remove_at_keeps : forall l i k x, nth_error l i = Some k -> In x l -> x <> k -> In x (remove_at l i).
+Proof.
+  intros l i k x E Hin Hne. apply (Permutation_in x (remove_at_perm l i k E)) in Hin. simpl in Hin.
+  destruct Hin as [H|H]; [congruence | exact H].
+Qed.
+
+(* ------------------------------------------------------------------ find_last *)
+
+Lemma find_last_some : forall k l i, find_last k l = Some i -> nth_error l i = Some k.
+Proof.
+  intros k l. induction l as [|x t IH]; intros i H; simpl in H; [discriminate|].
+  destruct (find_last k t) as [j|] eqn:E.
+  - inversion H; subst. simpl. apply IH. reflexivity.
+  - destruct (name_eqb x k) eqn:Ex; [|discriminate]. inversion H; subst. apply name_eqb_eq in Ex. subst. reflexivity.
+Qed.
+
+Lemma find_last_none : forall k l, find_last k l = None <-> ~ In k l.
+Proof.
+  intros k l. induction l as [|x t IH]; simpl.
+  - split; [intros _ H; exact H | reflexivity].
+  - destruct (find_last k t) as [j|] eqn:E.
+    + split; [discriminate|]. intro H. exfalso. apply H. right.
+      destruct (in_dec name_eq_dec k t) as [Hi|Hn]; [exact Hi|]. apply IH in Hn. discriminate.
+    + destruct (name_eqb x k) eqn:Ex.
+      * split; [discriminate|]. intro H. exfalso. apply H. left. apply name_eqb_eq. exact Ex.
+      * split; [|reflexivity]. intros _ [H|H].
+        -- apply name_eqb_neq in Ex. contradiction.
+        -- apply (proj1 IH eq_refl). exact H.
+Qed.
+
+Lemma find_last_lt : forall k l i, find_last k l = Some i -> i < length l.
+Proof.
+  intros k l i H. apply find_last_some in H. apply nth_error_Some. congruence.
+Qed.
+
+(* ------------------------------------------------------------------ generated names are fresh *)
+
+Lemma gen_name_spec : forall kids fuel c,
+  ~ In (fst (gen_name kids c fuel)) kids \/ (forall j, c <= j < c + fuel -> In (NI j) kids).
+Proof.
+  intros kids fuel. induction fuel as [|f IH]; intro c; simpl.
+  - right. intros j Hj. lia.
+  - destruct (mem (NI c) kids) eqn:E.
+    + destruct (IH (S c)) as [H|H]; [left; exact H|].
+      right. intros j Hj. destruct (Nat.eq_dec j c) as [->|Hne].
+      * apply mem_In. exact E.
+      * apply H. lia.
+    + left. simpl. apply mem_false. exact E.
+Qed.
+
+Lemma NI_seq_NoDup : forall c n, NoDup (map NI (seq c n)).
+Proof.
+  intros c n. apply FinFun.Injective_map_NoDup; [|apply seq_NoDup].
+  intros x y H. inversion H. reflexivity.
+Qed.
+
+Lemma gen_name_fresh : forall kids c, ~ In (fst (gen_name kids c (S (length kids)))) kids.
+Proof.
+  intros kids c. destruct (gen_name_spec kids (S (length kids)) c) as [H|H]; [exact H|].
+  exfalso.
+  assert (Hincl : incl (map NI (seq c (S (length kids)))) kids).
+  { intros x Hx. apply in_map_iff in Hx. destruct Hx as [j [<- Hj]]. apply in_seq in Hj. apply H. lia. }
+  pose proof (NoDup_incl_length (NI_seq_NoDup c (S (length kids))) Hincl) as Hl.
+  rewrite map_length, seq_length in Hl. lia.
+Qed.
+
+(* ------------------------------------------------------------------ replay *)
+
 Lemma replay_app : forall a b l, replay (a ++ b) l = replay b (replay a l).
 Proof. intros a b l. unfold replay. apply fold_left_app. Qed.
+
+Lemma replay_nil : forall l, replay [] l = l.
+Proof. reflexivity. Qed.
+
+Lemma replay_ins_from : forall l pre, replay (ins_from (length pre) l) pre = pre ++ l.
+Proof.
+  induction l as [|k t IH]; intro pre; simpl.
+  - rewrite app_nil_r. reflexivity.
+  - unfold replay. simpl. fold (replay (ins_from (S (length pre)) t) (insert_at pre (length pre) k)).
+    unfold insert_at. rewrite firstn_all, skipn_all.
+    replace (S (length pre)) with (length (pre ++ [k])) by (rewrite app_length; simpl; lia).
+    rewrite IH. rewrite <- app_assoc. reflexivity.
+Qed.
+
+(* what a client holds after replaying a snapshot: the index, whatever it held before -- unless the
+   index is empty, for which the server sends nothing at all *)
+Lemma replay_snapshot_nonempty : forall n l, index_of n <> [] -> replay (snapshot n) l = index_of n.
+Proof.
+  intros n l H. unfold snapshot. destruct (index_of n) as [|k t] eqn:E; [congruence|].
+  change (replay (OpClear :: ins_from 0 (k :: t)) l) with (replay (ins_from (length (@nil name)) (k :: t)) []).
+  rewrite replay_ins_from. reflexivity.
+Qed.
+
+Lemma replay_snapshot_empty : forall n, replay (snapshot n) [] = index_of n.
+Proof.
+  intro n. destruct (index_of n) as [|k t] eqn:E.
+  - unfold snapshot. rewrite E. reflexivity.
+  - rewrite <- E. apply replay_snapshot_nonempty. congruence.
+Qed.
+
+Lemma replay_snapshot_same : forall n, replay (snapshot n) (index_of n) = index_of n.
+Proof.
+  intro n. destruct (index_of n) as [|k t] eqn:E.
+  - unfold snapshot. rewrite E. reflexivity.
+  - rewrite <- E. apply replay_snapshot_nonempty. congruence.
+Qed.
+
+(* ------------------------------------------------------------------ one node: well-formedness is kept, the log is exact *)
+
+(* the index lists only children, each at most once *)
+Definition wfn (kids : list name) (n : inode) : Prop := NoDup (index_of n) /\ incl (index_of n) kids.
+
+Lemma wfn_new : forall kids, wfn kids new_node.
+Proof. intro kids. split; [constructor | intros x H; inversion H]. Qed.
+
+Lemma wfn_incl : forall kids kids' n, incl kids kids' -> wfn kids n -> wfn kids' n.
+Proof. intros kids kids' n Hi [H1 H2]. split; [exact H1 | intros x Hx; apply Hi, H2, Hx]. Qed.
+
+Lemma remove_entry_spec : forall k l l' ops, NoDup l -> remove_entry k l = (l', ops) ->
+  NoDup l' /\ replay ops l = l' /\ ~ In k l' /\ (forall x, In x l' -> In x l) /\ (forall x, In x l -> x <> k -> In x l').
+Proof.
+  intros k l l' ops Hn H. unfold remove_entry in H. destruct (find_last k l) as [i|] eqn:E.
+  - inversion H; subst. pose proof (find_last_some _ _ _ E) as Hi. repeat split.
+    + apply remove_at_NoDup; assumption.
+    + apply remove_at_not_In; assumption.
+    + intros x Hx. eapply remove_at_In; eassumption.
+    + intros x Hx Hne. eapply remove_at_keeps; eassumption.
+  - inversion H; subst. apply find_last_none in E. repeat split; try assumption.
+    + intros x Hx; exact Hx.
+    + intros x Hx _; exact Hx.
+Qed.
+
+Lemma remove_index_entry_spec : forall kids n k n' ops, wfn kids n -> remove_index_entry n k = (n', ops) ->
+  wfn kids n' /\ replay ops (index_of n) = index_of n' /\ ~ In k (index_of n') /\
+  (forall x, In x (index_of n') -> In x (index_of n)) /\ ctr n' = ctr n.
+Proof.
+  intros kids n k n' ops [Hn Hi] H. unfold remove_index_entry in H. unfold wfn, index_of in *.
+  destruct (idx n) as [l|] eqn:El.
+  - destruct (remove_entry k l) as [l' o] eqn:Er. inversion H; subst. simpl.
+    destruct (remove_entry_spec _ _ _ _ Hn Er) as (A & B & C & D & _).
+    split; [split; [exact A | intros x Hx; apply Hi, D, Hx]|].
+    split; [exact B|]. split; [exact C|]. split; [exact D | reflexivity].
+  - inversion H; subst. rewrite El.
+    split; [split; assumption|]. split; [reflexivity|]. split; [intros []|]. split; [intros x Hx; exact Hx | reflexivity].
+Qed.
+
+Lemma target_pos_le : forall b l, target_pos b l <= length l.
+Proof.
+  intros [| |x] l; simpl; try lia. destruct (find_last x l) as [i|] eqn:E; [apply find_last_lt in E|]; lia.
+Qed.
+
+Lemma insert_ordered_child_spec : forall kids n b optname n' nm ops,
+  wfn kids n -> (forall x, optname = Some x -> ~ In x kids) ->
+  insert_ordered_child kids n b optname = (n', nm, ops) ->
+  ~ In nm kids /\ wfn (kids ++ [nm]) n' /\ replay ops (index_of n) = index_of n'.
+Proof.
+  intros kids n b optname n' nm ops [Hn Hi] Hopt H. unfold insert_ordered_child in H.
+  assert (Hfresh : forall nm0 c0, (match optname with Some x => (x, ctr n) | None => gen_name kids (ctr n) (S (length kids)) end) = (nm0, c0) -> ~ In nm0 kids).
+  { intros nm0 c0 E. destruct optname as [x|].
+    - inversion E; subst. apply Hopt. reflexivity.
+    - pose proof (gen_name_fresh kids (ctr n)) as F. rewrite E in F. exact F. }
+  destruct (match optname with Some x => (x, ctr n) | None => gen_name kids (ctr n) (S (length kids)) end) as [nm0 c0] eqn:Eg.
+  specialize (Hfresh nm0 c0 eq_refl).
+  unfold index_of in *.
+  destruct (idx n) as [l|] eqn:El.
+  - destruct (is_remove b) eqn:Er.
+    + inversion H; subst. simpl. repeat split; try assumption. intros x Hx. apply in_or_app. left. apply Hi, Hx.
+    + inversion H; subst. simpl. repeat split.
+      * assumption.
+      * apply insert_at_NoDup; [assumption|]. intro Hc. apply Hfresh, Hi, Hc.
+      * intros x Hx. apply insert_at_In in Hx. apply in_or_app. destruct Hx as [->|Hx]; [right; left; reflexivity | left; apply Hi, Hx].
+  - destruct (is_remove b) eqn:Er.
+    + inversion H; subst. simpl. repeat split; try assumption. intros x Hx. inversion Hx.
+    + inversion H; subst. simpl. repeat split.
+      * assumption.
+      * apply insert_at_NoDup; [constructor | intro Hc; inversion Hc].
+      * intros x Hx. apply insert_at_In in Hx. apply in_or_app. destruct Hx as [->|Hx]; [right; left; reflexivity | inversion Hx].
+Qed.
+
+Lemma reorder_go_spec : forall kids cn c b l n2 ops2,
+  NoDup l -> incl l kids -> In c kids -> reorder_go kids cn c b l = (n2, ops2) ->
+  wfn kids n2 /\ replay ops2 l = index_of n2 /\ ctr n2 = cn.
+Proof.
+  intros kids cn c b l n2 ops2 Hl Hli Hc E. unfold reorder_go in E.
+  destruct (remove_entry c l) as [l1 ops1] eqn:Er.
+  destruct (remove_entry_spec _ _ _ _ Hl Er) as (A & B & C & D & _).
+  assert (Hins : forall tgt, wfn kids (mkNode (Some (insert_at l1 tgt c)) cn) /\
+                             replay (ops1 ++ [OpIns tgt c]) l = insert_at l1 tgt c).
+  { intro tgt. split.
+    - split; simpl.
+      + apply insert_at_NoDup; assumption.
+      + intros x Hx. apply insert_at_In in Hx. destruct Hx as [->|Hx]; [exact Hc | apply Hli, D, Hx].
+    - rewrite replay_app, B. reflexivity. }
+  destruct b as [| |x].
+  - injection E as <- <-. destruct (Hins (length l1)) as [W R]. split; [exact W|]. split; [exact R | reflexivity].
+  - injection E as <- <-. split; [split; simpl; [exact A | intros y Hy; apply Hli, D, Hy]|]. split; [exact B | reflexivity].
+  - injection E as <- <-. destruct (Hins (if mem x kids then target_pos (BName x) l1 else length l1)) as [W R].
+    split; [exact W|]. split; [exact R | reflexivity].
+Qed.
+
+Lemma reorder_child_spec : forall kids n c b n' ops,
+  wfn kids n -> In c kids -> reorder_child kids n c b = (n', ops) ->
+  wfn kids n' /\ replay ops (index_of n) = index_of n' /\ ctr n' = ctr n.
+Proof.
+  intros kids n c b n' ops Hw Hc H. unfold reorder_child in H.
+  assert (Hsame : (n, @nil iop) = (n', ops) -> wfn kids n' /\ replay ops (index_of n) = index_of n' /\ ctr n' = ctr n).
+  { intro E. inversion E; subst. split; [exact Hw|]. split; reflexivity. }
+  destruct Hw as [Hn Hi].
+  destruct (idx n) as [l|] eqn:El.
+  - assert (Ei : index_of n = l) by (unfold index_of; rewrite El; reflexivity). rewrite Ei in *.
+    destruct (match b with BName x => name_eqb x c | _ => false end); [apply Hsame; exact H|].
+    apply (reorder_go_spec kids (ctr n) c b l n' ops Hn Hi Hc H).
+  - assert (Ei : index_of n = []) by (unfold index_of; rewrite El; reflexivity). rewrite Ei in *.
+    destruct (is_remove b); [apply Hsame; exact H|].
+    destruct (match b with BName x => name_eqb x c | _ => false end); [apply Hsame; exact H|].
+    apply (reorder_go_spec kids (ctr n) c b [] n' ops Hn Hi Hc H).
+Qed.
+
+Lemma insert_index_entry_at_spec : forall kids n pos k n' ops,
+  wfn kids n -> ~ In k (index_of n) -> insert_index_entry_at kids n pos k = (n', ops) ->
+  wfn kids n' /\ replay ops (index_of n) = index_of n' /\ ctr n' = ctr n.
+Proof.
+  intros kids n pos k n' ops [Hn Hi] Hk H. unfold insert_index_entry_at in H.
+  destruct (mem k kids) eqn:E.
+  - injection H as <- <-. apply mem_In in E. split; [split; simpl|split; reflexivity].
+    + apply insert_at_NoDup; assumption.
+    + intros x Hx. apply insert_at_In in Hx. destruct Hx as [->|Hx]; [exact E | apply Hi, Hx].
+  - injection H as <- <-. split; [split; assumption | split; reflexivity].
+Qed.
+
+Lemma remove_index_entry_at_spec : forall kids n pos n' ops,
+  wfn kids n -> remove_index_entry_at n pos = (n', ops) ->
+  wfn kids n' /\ replay ops (index_of n) = index_of n' /\ ctr n' = ctr n.
+Proof.
+  intros kids n pos n' ops Hw H. unfold remove_index_entry_at in H.
+  assert (Hsame : (n, @nil iop) = (n', ops) -> wfn kids n' /\ replay ops (index_of n) = index_of n' /\ ctr n' = ctr n).
+  { intro E. injection E as <- <-. split; [exact Hw | split; reflexivity]. }
+  destruct Hw as [Hn Hi].
+  destruct (idx n) as [l|] eqn:El; [|apply Hsame; exact H].
+  assert (Ei : index_of n = l) by (unfold index_of; rewrite El; reflexivity). rewrite Ei in *.
+  destruct (nth_error l pos) as [k|] eqn:E; [|apply Hsame; exact H].
+  injection H as <- <-. split; [split; simpl|split; reflexivity].
+  - apply remove_at_NoDup; assumption.
+  - intros x Hx. apply Hi. eapply remove_at_In; eassumption.
+Qed.
+
+(* the pinned InsertIndexEntryAt happily inserts a name a second time (its documented precondition);
+   CloneDataNodeSubtree onto a destination that already has the entry does exactly that *)
+Lemma insert_index_entry_at_dup_refuted :
+  exists kids n pos k, wfn kids n /\ ~ NoDup (index_of (fst (insert_index_entry_at kids n pos k))).
+Proof.
+  exists [NI 0], (mkNode (Some [NI 0]) 0), 0, (NI 0). split.
+  - split; simpl; [repeat constructor; intros [] | intros x Hx; exact Hx].
+  - simpl. intro H. inversion H as [|? ? Hn _]. apply Hn. left. reflexivity.
+Qed.
+
+(* ------------------------------------------------------------------ paths and prefixes *)
+
+Lemma strip_prefix_spec : forall p q r, strip_prefix p q = Some r <-> q = p ++ r.
+Proof.
+  induction p as [|a p IH]; intros q r; simpl.
+  - split; intro H; [inversion H | subst]; reflexivity.
+  - destruct q as [|b q]; [split; intro H; discriminate|].
+    destruct (name_eqb a b) eqn:E.
+    + apply name_eqb_eq in E. subst. rewrite IH. split; intro H; [subst | inversion H]; reflexivity.
+    + apply name_eqb_neq in E. split; intro H; [discriminate | inversion H; congruence].
+Qed.
+
+Lemma is_prefix_spec : forall p q, is_prefix p q = true <-> exists r, q = p ++ r.
+Proof.
+  intros p q. unfold is_prefix. destruct (strip_prefix p q) as [r|] eqn:E.
+  - split; [intros _; exists r; apply strip_prefix_spec; exact E | reflexivity].
+  - split; [discriminate|]. intros [r Hr]. apply strip_prefix_spec in Hr. congruence.
+Qed.
+
+Lemma is_prefix_refl : forall p, is_prefix p p = true.
+Proof. intro p. apply is_prefix_spec. exists []. rewrite app_nil_r. reflexivity. Qed.
+
+Lemma is_prefix_app : forall p r, is_prefix p (p ++ r) = true.
+Proof. intros p r. apply is_prefix_spec. exists r. reflexivity. Qed.
+
+Lemma is_prefix_length : forall p q, is_prefix p q = true -> length p <= length q.
+Proof. intros p q H. apply is_prefix_spec in H. destruct H as [r ->]. rewrite app_length. lia. Qed.
+
+(* v is a prefix of q ++ [k] but not of q: then v is q ++ [k] itself *)
+Lemma is_prefix_snoc : forall v q k, is_prefix v (q ++ [k]) = true -> is_prefix v q = false -> v = q ++ [k].
+Proof.
+  intros v q k H1 H2. apply is_prefix_spec in H1. destruct H1 as [r Hr].
+  destruct r as [|x r] using rev_ind.
+  - rewrite app_nil_r in Hr. symmetry. exact Hr.
+  - exfalso. rewrite app_assoc in Hr. apply app_inj_tail in Hr. destruct Hr as [Hq _].
+    assert (is_prefix v q = true) by (apply is_prefix_spec; exists r; exact Hq). congruence.
+Qed.
+
+(* ------------------------------------------------------------------ the flat tree *)
+
+Lemma lookup_set_node : forall t p n q,
+  lookup (set_node t p n) q = if path_eqb p q then (match lookup t p with Some _ => Some n | None => None end) else lookup t q.
+Proof.
+  induction t as [|[r m] t IH]; intros p n q; simpl.
+  - destruct (path_eqb p q); reflexivity.
+  - destruct (path_eqb r p) eqn:E1.
+    + apply path_eqb_eq in E1. subst r. simpl. destruct (path_eqb p q) eqn:E2; reflexivity.
+    + simpl. destruct (path_eqb r q) eqn:E2.
+      * destruct (path_eqb p q) eqn:E3; [|reflexivity].
+        apply path_eqb_eq in E2. apply path_eqb_eq in E3. subst. rewrite path_eqb_refl in E1. discriminate.
+      * apply IH.
+Qed.
+
+Lemma keys_set_node : forall t p n, map fst (set_node t p n) = map fst t.
+Proof.
+  induction t as [|[r m] t IH]; intros p n; simpl; [reflexivity|].
+  destruct (path_eqb r p); simpl; [reflexivity | rewrite IH; reflexivity].
+Qed.
+
+Lemma kids_of_keys : forall t t' p, map fst t = map fst t' -> kids_of t p = kids_of t' p.
+Proof.
+  induction t as [|[r m] t IH]; intros [|[r' m'] t'] p H; simpl in *; try discriminate; [reflexivity|].
+  inversion H; subst. rewrite (IH t' p) by assumption. reflexivity.
+Qed.
+
+Lemma kids_of_set_node : forall t p n q, kids_of (set_node t p n) q = kids_of t q.
+Proof. intros. apply kids_of_keys. apply keys_set_node. Qed.
+
+Lemma has_node_set_node : forall t p n q, has_node (set_node t p n) q = has_node t q.
+Proof.
+  intros t p n q. unfold has_node. rewrite lookup_set_node.
+  destruct (path_eqb p q) eqn:E; [|reflexivity]. apply path_eqb_eq in E. subst.
+  destruct (lookup t q); reflexivity.
+Qed.
+
+Lemma lookup_app : forall t1 t2 q, lookup (t1 ++ t2) q = match lookup t1 q with Some n => Some n | None => lookup t2 q end.
+Proof.
+  induction t1 as [|[r m] t1 IH]; intros t2 q; simpl; [reflexivity|].
+  destruct (path_eqb r q); [reflexivity | apply IH].
+Qed.
+
+Lemma lookup_add_node : forall t p q,
+  lookup (add_node t p) q = match lookup t q with Some n => Some n | None => if path_eqb p q then Some new_node else None end.
+Proof.
+  intros t p q. unfold add_node, has_node. destruct (lookup t p) as [n|] eqn:E.
+  - destruct (lookup t q) eqn:E2; [reflexivity|]. destruct (path_eqb p q) eqn:E3; [|reflexivity].
+    apply path_eqb_eq in E3. subst. congruence.
+  - rewrite lookup_app. simpl. destruct (lookup t q); reflexivity.
+Qed.
+
+Lemma kids_of_app : forall t1 t2 p, kids_of (t1 ++ t2) p = kids_of t1 p ++ kids_of t2 p.
+Proof.
+  induction t1 as [|[r m] t1 IH]; intros t2 p; simpl; [reflexivity|].
+  destruct (strip_prefix p r) as [[|k [|k2 r2]]|]; simpl; rewrite IH; reflexivity.
+Qed.
+
+Lemma kids_of_In : forall t p k, In k (kids_of t p) <-> has_node t (p ++ [k]) = true.
+Proof.
+  induction t as [|[r m] t IH]; intros p k; simpl.
+  - unfold has_node. simpl. split; [contradiction | discriminate].
+  - unfold has_node in *. simpl.
+    destruct (path_eqb r (p ++ [k])) eqn:E.
+    + apply path_eqb_eq in E. subst r.
+      assert (S : strip_prefix p (p ++ [k]) = Some [k]) by (apply strip_prefix_spec; reflexivity).
+      rewrite S. simpl. split; [reflexivity | intros _; left; reflexivity].
+    + destruct (strip_prefix p r) as [[|k1 [|k2 r2]]|] eqn:S; try apply IH.
+      simpl. rewrite IH. apply strip_prefix_spec in S. subst r.
+      split; [|intro H; right; exact H]. intros [->|H]; [|exact H].
+      rewrite path_eqb_refl in E. discriminate.
+Qed.
+
+Lemma kids_of_add_node : forall t p q, incl (kids_of t q) (kids_of (add_node t p) q).
+Proof.
+  intros t p q. unfold add_node. destruct (has_node t p); [apply incl_refl|].
+  rewrite kids_of_app. apply incl_appl, incl_refl.
+Qed.
+
+Lemma has_node_add_node : forall t p q, has_node (add_node t p) q = has_node t q || path_eqb p q.
+Proof.
+  intros t p q. unfold has_node. rewrite lookup_add_node. destruct (lookup t q); [reflexivity|].
+  destruct (path_eqb p q); reflexivity.
+Qed.
+
+Lemma keys_add_node_NoDup : forall t p, NoDup (map fst t) -> NoDup (map fst (add_node t p)).
+Proof.
+  intros t p H. unfold add_node. destruct (has_node t p) eqn:E; [exact H|].
+  rewrite map_app. simpl. apply NoDup_app_remove_r with (l' := []) || idtac.
+  assert (Hn : ~ In p (map fst t)).
+  { intro Hin. apply in_map_iff in Hin. destruct Hin as [[r m] [Hr Hin]]. simpl in Hr. subst r.
+    unfold has_node in E. clear H. induction t as [|[r2 m2] t IH]; [inversion Hin|].
+    simpl in E. destruct (path_eqb r2 p) eqn:E2; [discriminate|].
+    destruct Hin as [Hin|Hin]; [inversion Hin; subst; rewrite path_eqb_refl in E2; discriminate | apply IH; assumption]. }
+  clear E. induction (map fst t) as [|x l IH]; simpl.
+  - constructor; [intros [] | constructor].
+  - inversion H; subst. constructor.
+    + intro Hin. apply in_app_or in Hin. destruct Hin as [Hin|[Hin|[]]]; [contradiction|]. subst. apply Hn. left. reflexivity.
+    + apply IH; [assumption|]. intro Hin. apply Hn. right. exact Hin.
+Qed.
+
+Lemma lookup_In : forall t p n, lookup t p = Some n -> In (p, n) t.
+Proof.
+  induction t as [|[r m] t IH]; intros p n H; simpl in H; [discriminate|].
+  destruct (path_eqb r p) eqn:E.
+  - apply path_eqb_eq in E. inversion H; subst. left. reflexivity.
+  - right. apply IH. exact H.
+Qed.
+
+Lemma In_lookup : forall t p n, NoDup (map fst t) -> In (p, n) t -> lookup t p = Some n.
+Proof.
+  induction t as [|[r m] t IH]; intros p n Hn H; [inversion H|].
+  simpl in Hn. inversion Hn as [|? ? Hr Hn']; subst. simpl. destruct H as [H|H].
+  - inversion H; subst. rewrite path_eqb_refl. reflexivity.
+  - destruct (path_eqb r p) eqn:E.
+    + apply path_eqb_eq in E. subst. exfalso. apply Hr. apply in_map_iff. exists (p, n). split; [reflexivity | exact H].
+    + apply IH; assumption.
+Qed.
+
+Lemma lookup_filter_key : forall (f : path -> bool) t q,
+  lookup (filter (fun e => f (fst e)) t) q = if f q then lookup t q else None.
+Proof.
+  intros f t q. induction t as [|[r m] t IH]; simpl.
+  - destruct (f q); reflexivity.
+  - destruct (f r) eqn:Ef; simpl.
+    + destruct (path_eqb r q) eqn:E.
+      * apply path_eqb_eq in E. subst. rewrite Ef. reflexivity.
+      * exact IH.
+    + destruct (path_eqb r q) eqn:E.
+      * apply path_eqb_eq in E. subst. rewrite Ef in *. exact IH.
+      * exact IH.
+Qed.
+
+Lemma lookup_delete_subtree : forall t v q,
+  lookup (delete_subtree t v) q = if is_prefix v q then None else lookup t q.
+Proof.
+  intros t v q. unfold delete_subtree.
+  rewrite (lookup_filter_key (fun p => negb (is_prefix v p))). destruct (is_prefix v q); reflexivity.
+Qed.
+
+Lemma keys_delete_NoDup : forall t v, NoDup (map fst t) -> NoDup (map fst (delete_subtree t v)).
+Proof.
+  intros t v H. unfold delete_subtree. induction t as [|[r m] t IH]; simpl; [constructor|].
+  simpl in H. inversion H as [|? ? Hr Hn]; subst.
+  destruct (negb (is_prefix v r)); simpl; [|apply IH; assumption].
+  constructor; [|apply IH; assumption].
+  intro Hin. apply Hr. apply in_map_iff in Hin. destruct Hin as [[r2 m2] [E Hin]]. simpl in E. subst.
+  apply filter_In in Hin. apply in_map_iff. exists (r, m2). split; [reflexivity | apply Hin].
+Qed.
+
+Lemma subtree_paths_In : forall t v q, In q (subtree_paths t v) <-> has_node t q = true /\ is_prefix v q = true.
+Proof.
+  intros t v q. unfold subtree_paths. rewrite in_map_iff. split.
+  - intros [[r m] [E H]]. simpl in E. subst. apply filter_In in H. destruct H as [Hin Hp]. simpl in Hp. split; [|exact Hp].
+    unfold has_node. clear Hp. induction t as [|[r2 m2] t IH]; [inversion Hin|]. simpl.
+    destruct (path_eqb r2 q) eqn:E; [reflexivity|]. destruct Hin as [Hin|Hin]; [inversion Hin; subst; rewrite path_eqb_refl in E; discriminate | apply IH; exact Hin].
+  - intros [Hh Hp]. unfold has_node in Hh. destruct (lookup t q) as [n|] eqn:E; [|discriminate].
+    exists (q, n). split; [reflexivity|]. apply filter_In. split; [apply lookup_In; exact E | exact Hp].
+Qed.
+
+(* ------------------------------------------------------------------ tree well-formedness *)
+
+(* every index lists only existing children of its node, each at most once *)
+Definition twf (t : tree) : Prop :=
+  NoDup (map fst t) /\ forall p n, lookup t p = Some n -> wfn (kids_of t p) n.
+
+Lemma index_at_lookup : forall t p n, lookup t p = Some n -> index_at t p = index_of n.
+Proof. intros t p n H. unfold index_at. rewrite H. reflexivity. Qed.
+
+Lemma twf_index_NoDup : forall t p, twf t -> NoDup (index_at t p).
+Proof.
+  intros t p [_ H]. unfold index_at. destruct (lookup t p) as [n|] eqn:E; [apply (H p n E) | constructor].
+Qed.
+
+Lemma twf_index_child : forall t p k, twf t -> In k (index_at t p) -> has_node t (p ++ [k]) = true.
+Proof.
+  intros t p k [_ H] Hin. unfold index_at in Hin. destruct (lookup t p) as [n|] eqn:E; [|inversion Hin].
+  apply kids_of_In. apply (H p n E). exact Hin.
+Qed.
+
+Lemma twf_set_node : forall t p n', twf t -> wfn (kids_of t p) n' -> twf (set_node t p n').
+Proof.
+  intros t p n' [Hk H] Hw. split; [rewrite keys_set_node; exact Hk|].
+  intros q m Hq. rewrite lookup_set_node in Hq. rewrite kids_of_set_node.
+  destruct (path_eqb p q) eqn:E.
+  - apply path_eqb_eq in E. subst q. destruct (lookup t p); [|discriminate]. inversion Hq; subst. exact Hw.
+  - apply H. exact Hq.
+Qed.
+
+Lemma twf_add_node : forall t p, twf t -> twf (add_node t p).
+Proof.
+  intros t p [Hk H]. split; [apply keys_add_node_NoDup; exact Hk|].
+  intros q m Hq. rewrite lookup_add_node in Hq. destruct (lookup t q) as [m0|] eqn:E.
+  - inversion Hq; subst. eapply wfn_incl; [apply kids_of_add_node | apply H; exact E].
+  - destruct (path_eqb p q); [|discriminate]. inversion Hq; subst. apply wfn_new.
+Qed.
+
